@@ -60,6 +60,8 @@ VARIANTS = {
     # name: (toolchain, cargo args, target subdir, profile dir)
     "release": (None, ["--release"], "main", "release"),
     "checked": (None, ["--profile", "checked"], "main", "checked"),
+    # Tracked elements padded to 128 bytes: element-size dependent code paths
+    "wide": (None, ["--release", "--features", "wide-elem"], "wide", "release"),
     "eio": (None, ["--release", "--features", "eio"], "eio", "release"),
     "eio-async": (None, ["--release", "--features", "eio-async"], "eioa", "release"),
     "eio-both": (None, ["--release", "--features", "eio,eio-async"], "eiob", "release"),
@@ -206,7 +208,7 @@ def run_regressions(prop, variants):
 
 def engine_a(prop, tier, seed):
     t0 = time.time()
-    variants = ["checked", "release"]
+    variants = ["checked", "release", "wide"]
     for v in variants:
         build(v)
     known = load_known()
@@ -254,26 +256,30 @@ def engine_a(prop, tier, seed):
             violation = (path, f["message"])
             break
     io_cov = {}
-    if prop == "C11" and not violation:
-        # "every other operation returns normally" includes the byte-stream operations of u8 buffers
-        # (consume / read / write with every size class, capacity zero included): same engine as C14
-        for v in variants:
-            out = os.path.join(OUT, f"C11.io.{v}.json")
+    if prop in ("C10", "C11") and not violation:
+        # C11: "every other operation returns normally" includes the byte-stream operations of u8 buffers
+        # (consume / read / write with every size class, capacity zero included): same engine as C14.
+        # C10: leaking a drain must be safe for zero-sized element types too (they can still own something
+        # through Drop): the zero-sized engine of C19 runs its drain-forget cases under this property as well.
+        sub_engine = "io" if prop == "C11" else "zst"
+        sub_args = ["io", "C11", "--apis", "std"] if prop == "C11" else ["zst"]
+        for v in ("checked", "release"):
+            out = os.path.join(OUT, f"{prop}.{sub_engine}.{v}.json")
             if os.path.exists(out):
                 os.remove(out)
-            p = subprocess.run([binary(v), "io", "C11", "--apis", "std", "--tier", tier, "--seed", str(seed), "--out", out],
+            p = subprocess.run([binary(v)] + sub_args + ["--tier", tier, "--seed", str(seed), "--out", out],
                                stdout=subprocess.PIPE, stderr=subprocess.STDOUT, text=True)
             if p.returncode != 0 or not os.path.exists(out):
                 log(p.stdout[-1500:])
                 write_min_evidence(prop, tier, seed, time.time() - t0, 0, f"io engine exit {p.returncode} on {v}")
-                inconclusive(f"property=C11 build={v}: byte-stream engine exit {p.returncode}")
+                inconclusive(f"property={prop} build={v}: {sub_engine} engine exit {p.returncode}")
             rep = json.load(open(out))
-            io_cov[f"byte_stream_cases_{v}"] = rep["enumerative"]["evaluations"] + rep["proptest"]["evaluations"]
+            io_cov[("byte_stream_cases_" if prop == "C11" else "zero_sized_element_cases_") + v] = rep["enumerative"]["evaluations"] + rep["proptest"]["evaluations"]
             if rep.get("failure"):
                 f = rep["failure"]
-                path = save_replay(prop, {"property": prop, "build": v, "engine": "io", "case": f["case"], "message": f["message"],
+                path = save_replay(prop, {"property": prop, "build": v, "engine": sub_engine, "case": f["case"], "message": f["message"],
                                           "rendered": f["rendered"], "generator": f["generator"], "seed": seed})
-                log(f"failing byte-stream case (build {v}): {f['rendered']}")
+                log(f"failing {sub_engine}-engine case (build {v}): {f['rendered']}")
                 log(f"  {f['message']}")
                 violation = (path, f["message"])
                 break
@@ -362,8 +368,8 @@ def replay_cmd(prop, path):
         bad = False
         for v in variants:
             build(v)
-            if meta.get("engine") == "io":
-                p = subprocess.run([binary(v), "replay-io", path], stdout=subprocess.PIPE, stderr=subprocess.STDOUT, text=True, timeout=120)
+            if meta.get("engine") in ("io", "zst"):
+                p = subprocess.run([binary(v), "replay-" + meta["engine"], path], stdout=subprocess.PIPE, stderr=subprocess.STDOUT, text=True, timeout=120)
                 r, out = ("ok" if p.returncode == 0 else "fail"), p.stdout
             else:
                 r, out = replay_once(v, prop, path)
